@@ -322,3 +322,38 @@ def order_hook(world, spec, oi, op, q, rec):
             # every field named in the ordering that is random appears in exactly one group, groups respect the directives
             rec["summary"].setdefault("order_groups", []).append([[getattr(f, "name", "?") for f in g] for g in order])
     rec["summary"]["ordered_randsets"] = n_ordered
+
+
+def dist_hook(world, spec, oi, op, q, rec):
+    """C15: the (weight, index) list the real DistConstraintBuilder installs for the call - the list next_target_range selects
+    from - holds exactly the non-zero weights evaluated on the non-random fields' values at the time of the call (the
+    selection law over that list is decided symbolically in checks/c15.py (b))."""
+    from . import e1
+    from vsc.visitors.expr2field_visitor import Expr2FieldVisitor
+    scopes = list((e1._state.get("dist_scopes") or {}).values())
+    exp = {}
+    for nm, wvals, guarded in rec["env"].dist_log:
+        if nm is not None:
+            exp.setdefault(nm, set()).add(tuple(wvals))
+    n = 0
+    for sc, wl, tot in scopes:
+        try:
+            fm = Expr2FieldVisitor().field(sc.dist_c.lhs)
+            path = rec["fm_path"].get(id(fm))
+        except Exception:
+            path = None
+        if path is None:
+            continue
+        nm = R.vname(path)
+        if nm not in exp:
+            continue
+        n += 1
+        ok = False
+        for wvals in exp[nm]:
+            ref = sorted([(w, i) for i, w in enumerate(wvals) if w > 0], key=lambda e: e[0])
+            if [tuple(e) for e in wl] == ref and tot == sum(wvals):
+                ok = True
+        if not ok:
+            _add(rec, "dist_weights", "dist on %s: the selection list installed for this call is %s (total %s) but the weights evaluate to %s now"
+                 % (nm, wl, tot, sorted(exp[nm])), op, oi)
+    rec["summary"]["dist_lists_checked"] = n
